@@ -71,13 +71,14 @@ def gen(tier, rng):
         if kind == "ec":
             for t in range(rng.choice([1, 2])):
                 tabs.append([rng.randrange(nd), rng.choice([1, 2, 3]), rng.randrange(0, 5)])
-        key = f"{kind}|{fam}|{shape}|{A}|{b}|{pts}|{none_groups}|{form}|{bad}|{keepdims}|{tabs}|{all_none}"
+        unset = kind == "family" and rng.random() < 0.35      # a FITS WCS never evaluated before the cube is cropped
+        key = f"{kind}|{fam}|{shape}|{A}|{b}|{pts}|{none_groups}|{form}|{bad}|{keepdims}|{tabs}|{all_none}|{unset}"
         cases.append({"key": key, "stratum": kind if not bad else "malformed", "kind": kind, "fam": fam, "shape": shape, "A": A, "b": b,
                       "groups": groups, "none_groups": none_groups, "pts": pts, "form": form, "bad": bad, "all_none": all_none,
-                      "keepdims": keepdims, "tabs": tabs, "wcsname": rng.choice(["extra_coords", "combined_wcs"]) if kind == "ec" else "wcs",
+                      "keepdims": keepdims, "tabs": tabs, "unset": unset, "wcsname": rng.choice(["extra_coords", "combined_wcs"]) if kind == "ec" else "wcs",
                       "nontrivial": True,
                       "show": {"wcs": kind, "family": fam, "shape": shape, "A": A, "b": b, "pixel_positions_of_points": pts,
-                               "groups_left_None": "ALL" if all_none else none_groups, "form": form, "malformed": bad, "keepdims": keepdims, "extra_coords": tabs}})
+                               "groups_left_None": "ALL" if all_none else none_groups, "form": form, "malformed": bad, "keepdims": keepdims, "extra_coords": tabs, "wcs_never_evaluated_before": unset}})
     return cases
 
 
@@ -87,7 +88,7 @@ def build(case):
     shape = tuple(case["shape"])
     nd = len(shape)
     if case["fam"]:
-        wcs = family_wcs(case["fam"], nd)
+        wcs = family_wcs(case["fam"], nd, unset=case.get("unset", False))
     else:
         wcs = make_probe(case["A"], case["b"], tw=list(range(nd)), tp=list(range(nd)))
     cube = NDCube(np.arange(int(np.prod(shape))).reshape(shape), wcs=wcs)
@@ -105,6 +106,8 @@ def run(case):
     wname = case["wcsname"]
     wcs_obj = getattr(cube, wname)
     ll = cube.extra_coords.wcs.low_level_wcs if wname == "extra_coords" else wcs_obj.low_level_wcs
+    if case.get("unset"):
+        ll = family_wcs(case["fam"], nd)      # the oracle reads an identical twin, so the cube's own WCS stays unevaluated
     why = []
     # ---- the world points
     pix_pts = [[Fr(*v) for v in p] for p in case["pts"]]
